@@ -68,6 +68,7 @@ func ruleUnionRange(c *Ctx, r *Reporter) {
 		field string
 		phi   *ssa.Phi
 		elem  ssa.Value
+		sign  int64 // +1: Compare(file.key, running); -1: Compare(running, file.key)
 	}
 	var cmps []cmp
 	AllInstrs(fn, false, func(_ *ssa.Function, ins ssa.Instruction) {
@@ -86,7 +87,11 @@ func ruleUnionRange(c *Ctx, r *Reporter) {
 				continue
 			}
 			if phi, ok := y.(*ssa.Phi); ok && (fieldName(fa) == "FirstKey" || fieldName(fa) == "LastKey") {
-				cmps = append(cmps, cmp{call, fieldName(fa), phi, x})
+				sg := int64(1)
+				if k == 1 {
+					sg = -1
+				}
+				cmps = append(cmps, cmp{call, fieldName(fa), phi, x, sg})
 			}
 		}
 	})
@@ -128,7 +133,7 @@ func ruleUnionRange(c *Ctx, r *Reporter) {
 		wantMin, wantMax bool
 	}{{-1, +1, true, true}, {-1, -1, true, false}, {+1, +1, false, true}, {+1, -1, false, false}} {
 		five := int64(5)
-		sc := &Scenario{Terms: map[string]int64{}, Bools: map[string]bool{}, Vals: map[ssa.Value]int64{first.call: row.f, last.call: row.l}, BoolVals: map[ssa.Value]bool{}, DefaultInt: &five, MaxVisits: 1}
+		sc := &Scenario{Terms: map[string]int64{}, Bools: map[string]bool{}, Vals: map[ssa.Value]int64{first.call: row.f * first.sign, last.call: row.l * last.sign}, BoolVals: map[ssa.Value]bool{}, DefaultInt: &five, MaxVisits: 1}
 		// the loop runs another time: index < len
 		for _, ins := range loop.Header.Instrs {
 			if bo, ok := ins.(*ssa.BinOp); ok && bo.Op == token.LSS {
